@@ -1,3 +1,55 @@
-import Chewing.Model.TrieCodec
+import Chewing.Proofs.Der
+import Chewing.Proofs.TriePhrase
+import Chewing.Proofs.TrieBuilder
+import Chewing.Proofs.TrieSort
+import Chewing.Proofs.TrieLayout
+import Chewing.Proofs.TrieLookup
+import Chewing.Proofs.TrieSpec
+import Chewing.Proofs.TrieDoc
+/-!
+# C11 — A trie dictionary file returns exactly what was put in, in the documented order
+
+Model: `Chewing.Model.Der` (the shapes of the `der` crate the format uses) and
+`Chewing.Model.TrieCodec` (`TrieBuilder::{insert, write}`, `Trie::{new, lookup_all_phrases,
+entries, about}` at the level of the file's bytes), tied to `src/dictionary/trie.rs` by
+byte-for-byte correspondence on generated entry sets (`harness/src/bin/codec.rs`).
+
+Finding F13 (`data_len as u16` / `child_len as u16` truncated silently) is repaired in the
+repository (`fix:` commit): `write` returns an error beyond the 16-bit limits, which is what the
+model does (`writeLoop` returns `none`).  The statement is therefore about *successful* writes,
+together with `writes_within_limits`: inside the format's limits `write` does succeed.
+-/
 namespace Chewing.C11
+open Chewing Chewing.Der Chewing.TrieCodec
+
+/-! ## the statement -/
+
+/-- inputs as the Rust types constrain them: `String`s hold Unicode scalar values, a `Syllable` is a
+    non-zero `u16`, `freq : u32`, `last_used : Option<u64>` -/
+def ValidInput (info : Info) (es : List Entry) : Prop := ValidInfo info ∧ ∀ e ∈ es, ValidEntry e
+
+/-- a query: non-zero syllable codes -/
+def ValidKey (k : List Nat) : Prop := ∀ s ∈ k, s ≠ 0
+
+/-- the phrases inserted for a key: insertion order, a re-inserted phrase replacing the earlier one
+    where it stood (`none` = the key was never inserted) -/
+def inserted (es : List Entry) (k : List Nat) : Option (List Phrase) := refFind es k
+
+/-- the documented order of a leaf with inserted phrase vector `ps`: single characters keep
+    insertion order; multi-character phrases are ordered by descending frequency -/
+def OrderDocumented (ps result : List Phrase) : Prop :=
+  result.Perm ps ∧
+  ((∀ p ∈ ps, p.text.length = 1) → result = ps) ∧
+  ((∀ p ∈ ps, p.text.length ≠ 1) → result.Pairwise (fun a b => b.freq ≤ a.freq))
+
+/-- every syllable of the key begins with the corresponding partial syllable, same length -/
+def fuzzyMatch : List Nat → List Nat → Bool
+  | [], [] => true
+  | s :: k, p :: q => startsWith s p && fuzzyMatch k q
+  | _, _ => false
+
+/-- a list of (key, inserted phrase vector) groups holding each key satisfying `P` exactly once -/
+def GroupsOf (es : List Entry) (P : List Nat → Prop) (groups : List (List Nat × List Phrase)) : Prop :=
+  (groups.map (·.1)).Nodup ∧ ∀ k ps, (k, ps) ∈ groups ↔ (inserted es k = some ps ∧ P k)
+
 end Chewing.C11
